@@ -112,6 +112,8 @@ func runRsScenario(sc RsScenario) string {
 			cancel()
 		case "wait":
 			time.Sleep(5 * time.Millisecond)
+		case "longwait":
+			time.Sleep(400 * time.Millisecond)
 		}
 	}
 	done := make(chan struct{})
@@ -123,6 +125,31 @@ func runRsScenario(sc RsScenario) string {
 		hung = true
 	}
 	evs, _ := rec.snapshot()
+	// A Stop() returns when the Run() has executed its deferred done(); the Run() call itself returns to its caller
+	// (where RR is recorded) a moment later.  Each SR carries how long after it the RR was recorded (ms; 0 if before;
+	// x if the Run() never returned): the oracle allows a scheduling delay, not a Run() that is still at work.
+	rec.mu.Lock()
+	ts := append([]time.Duration(nil), rec.ts...)
+	rec.mu.Unlock()
+	var rr time.Duration = -1
+	for i, e := range evs {
+		if strings.HasPrefix(e, "RR") {
+			rr = ts[i]
+			break
+		}
+	}
+	for i, e := range evs {
+		if strings.HasPrefix(e, "SR") {
+			switch {
+			case rr < 0:
+				evs[i] = e + ":x"
+			case rr <= ts[i]:
+				evs[i] = e + ":0"
+			default:
+				evs[i] = fmt.Sprintf("%s:%d", e, (rr-ts[i]).Milliseconds())
+			}
+		}
+	}
 	b, _ := json.Marshal(sc)
 	return fmt.Sprintf("c07liftholds kind=%s ops=%s hung=%v scn~%s %s", sc.Kind, strings.Join(sc.Ops, ","), hung,
 		base64.RawURLEncoding.EncodeToString(b), strings.Join(evs, " "))
@@ -132,8 +159,8 @@ var rsOrders = [][]string{
 	{"run", "wait", "stop"},
 	{"run", "wait", "stop", "stop"},
 	{"stop", "wait", "run"},
-	{"stop", "stop", "wait", "run"},
-	{"stop", "wait", "stop", "wait", "run"},
+	{"stop", "stop", "longwait", "run"},
+	{"stop", "wait", "stop", "longwait", "run"},
 	{"reload", "run", "wait", "stop"},
 	{"reload", "stop", "wait", "run"},
 	{"cancel", "run", "wait", "stop"},
@@ -183,7 +210,7 @@ func runRunStop(o Opts) {
 				if j == runAt {
 					ops = append(ops, "run")
 				}
-				ops = append(ops, pick(rnd, []string{"stop", "stop", "wait", "reload", "cancel"}))
+				ops = append(ops, pick(rnd, []string{"stop", "stop", "wait", "reload", "cancel", "longwait"}))
 			}
 			if !in(ops, "stop") {
 				ops = append(ops, "stop")
